@@ -513,20 +513,32 @@ fn cmd_accum(args: &[&str], out: &mut Vec<String>) {
     out.append(&mut calls);
 }
 
-pub fn crc32(data: &[u8]) -> u32 {
-    let mut table = [0u32; 256];
-    for i in 0..256u32 {
-        let mut c = i;
-        for _ in 0..8 {
-            c = if c & 1 != 0 { 0xEDB8_8320 ^ (c >> 1) } else { c >> 1 };
+fn crc_table() -> &'static [u32; 256] {
+    static T: std::sync::OnceLock<[u32; 256]> = std::sync::OnceLock::new();
+    T.get_or_init(|| {
+        let mut table = [0u32; 256];
+        for i in 0..256u32 {
+            let mut c = i;
+            for _ in 0..8 {
+                c = if c & 1 != 0 { 0xEDB8_8320 ^ (c >> 1) } else { c >> 1 };
+            }
+            table[i as usize] = c;
         }
-        table[i as usize] = c;
-    }
-    let mut c = 0xFFFF_FFFFu32;
+        table
+    })
+}
+
+/// running crc32: start with 0xFFFF_FFFF, finish with `^ 0xFFFF_FFFF`
+pub fn crc32_update(mut c: u32, data: &[u8]) -> u32 {
+    let table = crc_table();
     for &b in data {
         c = table[((c ^ u32::from(b)) & 0xff) as usize] ^ (c >> 8);
     }
-    c ^ 0xFFFF_FFFF
+    c
+}
+
+pub fn crc32(data: &[u8]) -> u32 {
+    crc32_update(0xFFFF_FFFF, data) ^ 0xFFFF_FFFF
 }
 
 /// byte i of the synthetic stream used by the *big commands (period 251, never 0: no start codes / escapes)
@@ -625,7 +637,8 @@ fn cmd_accumbig(args: &[&str], out: &mut Vec<String>) {
 /// that hands over an empty slice, or a second end for the same unit.
 struct BigTrace {
     out: Vec<String>,
-    cur: Vec<u8>,
+    len: u64,
+    crc: u32,
     open: bool,
 }
 impl NalFragmentHandler for BigTrace {
@@ -637,12 +650,14 @@ impl NalFragmentHandler for BigTrace {
             self.out.push("EMPTYCALL".into());
         }
         for b in bufs {
-            self.cur.extend_from_slice(b);
+            self.len += b.len() as u64;
+            self.crc = crc32_update(self.crc, b);
         }
         self.open = true;
         if end {
-            self.out.push(format!("U{}:{:08x}", self.cur.len(), crc32(&self.cur)));
-            self.cur.clear();
+            self.out.push(format!("U{}:{:08x}", self.len, self.crc ^ 0xFFFF_FFFF));
+            self.len = 0;
+            self.crc = 0xFFFF_FFFF;
             self.open = false;
         }
     }
@@ -660,6 +675,8 @@ fn cmd_annexbig(args: &[&str], out: &mut Vec<String>) {
     enum Act {
         Push(Vec<u8>),
         Reset,
+        /// D<n>: n bytes of 0xAB pushed in pieces of 32 MiB (streams of several GiB without holding them)
+        Bulk(u64),
     }
     let mut acts: Vec<Act> = Vec::new();
     for t in script.split(',').filter(|s| !s.is_empty()) {
@@ -688,6 +705,11 @@ fn cmd_annexbig(args: &[&str], out: &mut Vec<String>) {
             pos += n;
         } else if let Some(h) = t.strip_prefix('x') {
             pending.extend(unhex(h));
+        } else if let Some(n) = t.strip_prefix('D') {
+            if !pending.is_empty() {
+                acts.push(Act::Push(std::mem::take(&mut pending)));
+            }
+            acts.push(Act::Bulk(n.parse().unwrap()));
         } else {
             panic!("bad annexbig token {}", t);
         }
@@ -696,16 +718,25 @@ fn cmd_annexbig(args: &[&str], out: &mut Vec<String>) {
         acts.push(Act::Push(pending));
     }
     if mode == "F" {
-        let mut r = AnnexBReader::for_fragment_handler(BigTrace { out: Vec::new(), cur: Vec::new(), open: false });
+        let mut r = AnnexBReader::for_fragment_handler(BigTrace { out: Vec::new(), len: 0, crc: 0xFFFF_FFFF, open: false });
+        let block = vec![0xABu8; 32 << 20];
         for a in &acts {
             match a {
                 Act::Push(b) => r.push(b),
                 Act::Reset => r.reset(),
+                Act::Bulk(n) => {
+                    let mut left = *n;
+                    while left > 0 {
+                        let k = std::cmp::min(left, block.len() as u64) as usize;
+                        r.push(&block[..k]);
+                        left -= k as u64;
+                    }
+                }
             }
         }
         let mut h = r.into_fragment_handler();
         if h.open {
-            h.out.push(format!("O{}:{:08x}", h.cur.len(), crc32(&h.cur)));
+            h.out.push(format!("O{}:{:08x}", h.len, h.crc ^ 0xFFFF_FFFF));
         }
         out.append(&mut h.out);
     } else {
@@ -732,6 +763,7 @@ fn cmd_annexbig(args: &[&str], out: &mut Vec<String>) {
                 match a {
                     Act::Push(b) => r.push(b),
                     Act::Reset => r.reset(),
+                    Act::Bulk(_) => panic!("D tokens are for the fragment-handler mode"),
                 }
             }
         }
